@@ -2,6 +2,9 @@ package iocopy
 
 import (
 	"errors"
+	"io"
+	"sync"
+	"time"
 )
 
 var c12ErrTunnel = errors.New("c12: tunnel failed")
@@ -149,4 +152,78 @@ func Harness_C12_udp_large() {
 		verif_Cover("C12.large.to_udp")
 	}
 	verif_Cover("C12.large.done")
+}
+
+// c12Duplex is a tunnel transport that has Close but no half-close of its own (a pipe, a
+// websocket): one object is both the reader and the writer. Its far end answers only after it
+// has received the whole request, and a moment later.
+type c12Duplex struct {
+	mu     sync.Mutex
+	want   int // request bytes the far end waits for
+	got    []byte
+	reply  []byte
+	sent   bool
+	ready  chan struct{}
+	closed bool
+	closeN int
+}
+
+func (d *c12Duplex) Write(p []byte) (int, error) {
+	d.mu.Lock()
+	defer d.mu.Unlock()
+	if d.closed {
+		return 0, io.ErrClosedPipe
+	}
+	d.got = append(d.got, p...)
+	if len(d.got) >= d.want && d.ready != nil {
+		close(d.ready)
+		d.ready = nil
+	}
+	return len(p), nil
+}
+func (d *c12Duplex) Read(p []byte) (int, error) {
+	d.mu.Lock()
+	rd := d.ready
+	d.mu.Unlock()
+	if rd != nil {
+		<-rd
+	}
+	time.Sleep(200 * time.Millisecond) // the far end needs a moment to answer
+	d.mu.Lock()
+	defer d.mu.Unlock()
+	if d.closed {
+		return 0, io.ErrClosedPipe
+	}
+	if d.sent {
+		return 0, io.EOF
+	}
+	d.sent = true
+	return copy(p, d.reply), nil
+}
+func (d *c12Duplex) Close() error {
+	d.mu.Lock()
+	defer d.mu.Unlock()
+	d.closed = true
+	d.closeN++
+	return nil
+}
+
+// Request/response through a tunnel whose transport cannot half-close: the local application
+// sends its request and closes its write side, the far end answers afterwards. The answer must
+// still arrive - finishing one direction must not tear down the other.
+func Harness_C12_request_reply() {
+	verif_ClockSet(int64(1) << 60)
+	na := verif_IntRange(1, verif_Bound("bytes"))
+	nb := verif_IntRange(1, verif_Bound("bytes"))
+	req, rep := verif_Bytes(na), verif_Bytes(nb)
+	local := &verifConn{In: &verifReader{Data: req}, Out: &verifSink{}}
+	d := &c12Duplex{want: na, reply: rep, ready: make(chan struct{})}
+	tunnel, err := NewReadWriteCloser(d, d, func() error { return d.Close() })
+	verif_Assert("C12.rr.setup", err == nil)
+	res := Bidirectional(local, tunnel, nil)
+	verif_Assert("C12.rr.request_delivered", verif_BytesEq(d.got, req))
+	verif_Assert("C12.rr.reply_delivered", verif_BytesEq(local.Out.Buf, rep))
+	verif_Assert("C12.rr.counts", res.BytesSent == int64(na) && res.BytesReceived == int64(nb))
+	verif_Assert("C12.rr.closed", d.closed && local.Closed)
+	verif_Cover("C12.rr.done")
 }
